@@ -74,7 +74,12 @@ class CustomStr(Exception):
         return "custom-str"
 
 
+class SubLookup(LookupError):
+    """an application-defined lookup error (e.g. a component lookup error)"""
+
+
 EXC_CLASSES = {
+    "SubLookup": SubLookup, "UnboundLocalError": UnboundLocalError,
     "KeyError": KeyError, "NameError": NameError, "AttributeError": AttributeError,
     "LookupError": LookupError, "IndexError": IndexError, "TypeError": TypeError,
     "ValueError": ValueError, "UnicodeError": UnicodeError,
